@@ -214,6 +214,32 @@ def all_step_lists(c):
             yield it["steps"]
 
 
+def conflicting_languages(lab, lang):
+    """Languages that use one of *lang*'s keyword aliases for ANOTHER kind of keyword (ro 'Exemple' = Examples, fr 'Exemple' = Scenario)."""
+    cache = lab.setdefault("_conflicts", {})
+    if lang not in cache:
+        from behave import i18n
+        kinds = ("feature", "rule", "background", "scenario", "scenario_outline", "examples", "given", "when", "then", "and", "but")
+        mine = {}
+        for k in kinds:
+            for al in i18n.languages[lang].get(k, []):
+                mine.setdefault(al.strip(), set()).add(k)
+        out = []
+        for other, kws2 in i18n.languages.items():
+            if other == lang:
+                continue
+            hit = False
+            for k in kinds:
+                for al in kws2.get(k, []):
+                    a2 = al.strip()
+                    if a2 != "*" and a2 in mine and k not in mine[a2]:
+                        hit = True
+            if hit:
+                out.append(other)
+        cache[lang] = sorted(out)
+    return cache[lang]
+
+
 def check_doc(mon, lab, lang, kws, rng, layout, monitor="parse.faithful", force_alias=None, via_file=False, sample=False, strip_colon=False):
     gen = DocGen(rng, lang, kws, force_alias=force_alias)
     a = gen.feature()
@@ -277,7 +303,16 @@ def _check_doc(mon, lab, lang, kws, rng, a, text, lines, case, monitor, via_file
             try:
                 with os.fdopen(fd, "wb") as fh:
                     fh.write(raw)
-                m = lab["parse_file"](path)
+                default_lang = None
+                if rng.random() < 0.6:
+                    # a DEFAULT language is given as well (behave --lang XX / lang = XX in a config file): the file's own
+                    # '# language:' header decides -- also where the two languages use the same word for different things
+                    default_lang = rng.choice(conflicting_languages(lab, lang) or [rng.choice(["en", "fr", "nl", "de"])])
+                    if default_lang == lang:
+                        default_lang = "en" if lang != "en" else "de"
+                    case["default_language"] = default_lang
+                    mon.seen("default_language_next_to_header", "shares_a_word_with_another_role" if conflicting_languages(lab, lang) else "other")
+                m = lab["parse_file"](path) if default_lang is None else lab["parse_file"](path, language=default_lang)
             finally:
                 os.remove(path)
         else:
